@@ -119,12 +119,16 @@ def find_method(eng, k, name):
     return None
 
 
-def heap_write(eng, ref, field, v):
+def heap_write(eng, ref, field, v, init=False):
     from .engine import Unsupported
     cls = ref.ty[1]
     k = KLASSES.get(cls)
     if k is None or field not in k.fields:
         raise Unsupported('write to undeclared field %s.%s' % (cls, field))
+    if not init and not k.fields[field][1]:
+        # the sidecar declares this field immutable (it is never forgotten at a havoc, and every unit reads it as a
+        # constant of the object): code that assigns it contradicts the declaration - the units are undecided, not wrong
+        raise Unsupported('assignment to %s.%s, which the class declaration in the sidecar lists as immutable' % (cls, field))
     ty = k.fields[field][0]
     try:
         cv = T.coerce(v, ty) if isinstance(v, V) else None
@@ -142,7 +146,7 @@ def alloc(eng, cls, init=None):
     st.ghost['nalloc'] = n + 1
     ref = V(('ref', cls), z3.IntVal(FRESH_BASE + n))
     for f, val in (init or {}).items():
-        heap_write(eng, ref, f, val)
+        heap_write(eng, ref, f, val, init=True)
     return ref
 
 
